@@ -4,6 +4,7 @@
 import Xc.Thm.C13
 import Xc.Thm.C18
 import Xc.Lemmas.Accept
+import Xc.Lemmas.Accept2
 namespace Xc.C10
 open Xc
 
@@ -59,5 +60,63 @@ theorem C10_accept (d : Bool) (D : Digests) (hst : ∀ f, D.bfSelfTest f = true)
     | exact accept_nt count osize S e h D p
     | exact accept_bsdi count rb n osize S e h D p
     | exact accept_des count rb n osize S e h D p
+
+/-- "the KDF itself succeeds": whenever the parameters pass `yescrypt_kdf`'s sanity checks, memory is available (allocation
+    failure is C15's subject; it is the only way a generated yescrypt-family setting can fail to hash) -/
+def KdfOk (D : Digests) (p : Bytes) : Prop := ∀ P salt, yesKdfParamsOk P = true → (D.yescrypt P salt p).isSome = true
+
+theorem kdfParams_gen : (∀ c, 1 ≤ c → c ≤ 11 → yesKdfParamsOk (yesParamsOf c) = true) ∧
+    (∀ c, 6 ≤ c → c ≤ 11 → yesKdfParamsOk (scryptParamsOf c) = true) := by
+  constructor
+  · intro c h1 h2
+    rcases cases_1_11 h1 h2 with rfl | rfl | rfl | rfl | rfl | rfl | rfl | rfl | rfl | rfl | rfl <;> decide
+  · intro c h1 h2
+    rcases cases_6_11 h1 h2 with rfl | rfl | rfl | rfl | rfl | rfl <;> decide
+
+/-- **C10, acceptance clause for every method** (all sixteen; `$2x$` never generates anything): the method's `crypt` accepts
+    what its `gensalt` wrote and the hash begins with the generated setting.  The yescrypt family needs the KDF to find its
+    memory (`KdfOk`); bigcrypt keeps the whole setting when descrypt is enabled (the tree's configuration) and otherwise the two
+    salt characters — the twelve filler characters written in a build without descrypt are, by design, not part of the hash. -/
+theorem C10_accept_all (d : Bool) (D : Digests) (hD : D.WF) (hst : ∀ f, D.bfSelfTest f = true) (m : Method)
+    (count : Nat) (rb : Bytes) (n osize : Nat) (S : Bytes) (e : Nat) (h : gensaltMethod d m count rb n osize = .ok S e)
+    (p : Bytes) (hk : KdfOk D p) :
+    ∃ H, cryptMethod d D m p S = .ok H ∧ (if m = .bigcrypt ∧ d = false then S.take 2 <+: H else S <+: H) := by
+  by_cases hacc : accepted m = true
+  · obtain ⟨H, h1, h2⟩ := C10_accept d D hst m hacc count rb n osize S e h p
+    refine ⟨H, h1, ?_⟩
+    have : ¬ (m = .bigcrypt ∧ d = false) := by intro hh; rw [hh.1] at hacc; simp [accepted] at hacc
+    rw [if_neg this]; exact h2
+  · cases m <;> simp only [accepted, not_true_eq_false] at hacc <;> simp only [gensaltMethod, cryptMethod] at h ⊢
+    case yescrypt =>
+      obtain ⟨c1, c2, _, _⟩ := gensaltYescrypt_shape h
+      rw [accept_yescrypt count rb n osize S e h D hD p]
+      have := hk _ (padTo rb (min n 64)) (kdfParams_gen.1 _ c1 c2)
+      cases hq : D.yescrypt (yesParamsOf (dfl count 5)) (padTo rb (min n 64)) p with
+      | none => rw [hq] at this; cases this
+      | some hd => exact ⟨_, rfl, by simp⟩
+    case gost_yescrypt =>
+      obtain ⟨c1, c2, _, _⟩ := gensaltGost_shape h
+      rw [accept_gost count rb n osize S e h D hD p]
+      have := hk _ (padTo rb (min n 64)) (kdfParams_gen.1 _ c1 c2)
+      cases hq : D.yescrypt (yesParamsOf (dfl count 5)) (padTo rb (min n 64)) p with
+      | none => rw [hq] at this; cases this
+      | some hd => exact ⟨_, rfl, by simp⟩
+    case scrypt =>
+      obtain ⟨c1, c2, _, _⟩ := gensaltScrypt_shape h
+      rw [accept_scrypt count rb n osize S e h D hD p]
+      have := hk _ (encode64 (padTo rb (min n 64))) (kdfParams_gen.2 _ c1 c2)
+      cases hq : D.yescrypt (scryptParamsOf (dfl count 7)) (encode64 (padTo rb (min n 64))) p with
+      | none => rw [hq] at this; cases this
+      | some hd => exact ⟨_, rfl, by simp⟩
+    case bcrypt_x => cases h
+    case sunmd5 =>
+      rw [accept_sunmd5 count rb n osize S e h D p]
+      exact ⟨_, rfl, by simp⟩
+    case bigcrypt =>
+      obtain ⟨H, h1, h2, h3⟩ := accept_big d count rb n osize S e h D p
+      refine ⟨H, h1, ?_⟩
+      cases d with
+      | true => simp; exact h3 rfl
+      | false => simp; exact h2
 
 end Xc.C10
